@@ -148,7 +148,8 @@ SUB_BASE = {"intenum": "int", "strenum": "str", "ordereddict": "dict", "counter"
 # ------------------------------------------------------------------------------------------
 
 def build(spec, variant: int = 0, _rng=None):
-    """Construct the python value; variant != 0 shuffles the insertion order of sets and dicts."""
+    """Construct the python value; variant != 0 shuffles the insertion order of sets and dicts and may build
+    >=2-d arrays in Fortran order (equal values, constructed differently)."""
     rng = _rng or (random.Random(variant) if variant else None)
     t = spec[0]
 
@@ -194,6 +195,8 @@ def build(spec, variant: int = 0, _rng=None):
         a = np.array(spec[3], dtype=spec[1]).reshape(spec[2])
         if t == "ndT" and a.ndim >= 2:
             a = np.ascontiguousarray(a.T).T  # same content, Fortran-ordered view
+        elif rng is not None and a.ndim >= 2 and rng.random() < 0.5:
+            a = np.asfortranarray(a)         # construction variant: equal array, other memory layout
         return a
     if t == "ndTT":
         # the flat values laid out for the *reversed* shape and viewed transposed: same shape, dtype and raw
